@@ -153,4 +153,71 @@ theorem hdr2_derive : bitsDerive 2 false [⟨some "ver", 4, some 2⟩, ⟨none, 
       (⟨none, 1, none⟩, 11), (⟨some "tn", 3, none⟩, 8), (⟨some "batch", 1, none⟩, 7), (⟨none, 1, none⟩, 6),
       (⟨some "trxn", 6, none⟩, 0)]) := rfl
 
+theorem natcast_mod_toNat (x B : Nat) (h : x < B) : ((x : Int) % ((B : Nat) : Int)).toNat = x := by
+  rw [Int.emod_eq_of_lt (by omega) (by omega), Int.toNat_natCast]
+
+/-- the v0/v1 header octet -/
+theorem hdr1_enc (veri : Int) (ver tn : Nat) (v : Vals) (hvi : veri = (ver : Int)) (hver : ver < 16) (htn : tn < 8)
+    (hg : v.get "tn" = .ok (.int tn)) :
+    fieldTo (hdr1 veri) v = .ok [hdrOctet ver tn] := by
+  subst hvi
+  have he : bitsEnc [(⟨some "ver", 4, some (ver : Int)⟩, 4), (⟨none, 1, none⟩, 3), (⟨some "tn", 3, none⟩, 0)] v 0
+      = .ok (ver * 16 + tn) := by
+    simp only [bitsEnc, bitEnc, hg, natcast_mod_toNat ver (2 ^ 4) hver, natcast_mod_toNat tn (2 ^ 3) htn]
+    rw [hdr_or ver hver tn htn]
+  have := fieldTo_bits_eval 1 false _ v 1 _ (ver * 16 + tn) (hdr1_derive ver) he (by omega)
+  simp only [hdr1, this, bytesOf_1, hdrOctet]
+  congr 2; omega
+
+/-- the MTS set: NOPE(1) MOD(4) TSC(3) -/
+def mtsSet : FDef := .bits .always 1 false [⟨some "nope", 1, none⟩, ⟨some "mod", 4, none⟩, ⟨some "tsc", 3, none⟩]
+
+theorem mts_derive : bitsDerive 1 false [⟨some "nope", 1, none⟩, ⟨some "mod", 4, none⟩, ⟨some "tsc", 3, none⟩]
+    = .ok (1, [(⟨some "nope", 1, none⟩, 7), (⟨some "mod", 4, none⟩, 3), (⟨some "tsc", 3, none⟩, 0)]) := rfl
+
+theorem mts_enc (nope mod tsc : Nat) (v : Vals) (h1 : nope < 2) (h2 : mod < 16) (h3 : tsc < 8)
+    (g1 : v.get "nope" = .ok (.int nope)) (g2 : v.get "mod" = .ok (.int mod)) (g3 : v.get "tsc" = .ok (.int tsc)) :
+    fieldTo mtsSet v = .ok [mtsOctet nope mod tsc] := by
+  have he : bitsEnc [(⟨some "nope", 1, none⟩, 7), (⟨some "mod", 4, none⟩, 3), (⟨some "tsc", 3, none⟩, 0)] v 0
+      = .ok (nope * 128 + mod * 8 + tsc) := by
+    simp only [bitsEnc, bitEnc, g1, g2, g3, natcast_mod_toNat nope (2 ^ 1) h1, natcast_mod_toNat mod (2 ^ 4) h2,
+      natcast_mod_toNat tsc (2 ^ 3) h3]
+    rw [mts_or nope h1 mod h2 tsc h3]
+  have := fieldTo_bits_eval 1 false _ v 1 _ (nope * 128 + mod * 8 + tsc) mts_derive he (by omega)
+  simp only [mtsSet, this, bytesOf_1, mtsOctet]
+  congr 2; omega
+
+/-- an unsigned one-octet field with `mult = -1` (RSSI sent as `-RSSI`) -/
+theorem neg_u8_enc (name : String) (v : Vals) (x : Int) (hg : v.get name = .ok (.int x)) (h1 : -255 ≤ x) (h2 : x ≤ 0) :
+    fieldTo (.int name .always 1 .big false 0 (-1)) v = .ok [(-x).toNat] := by
+  have := fieldTo_int_eval name 1 .big false 0 (-1) v x hg (by decide)
+    (by rw [fitsInt_unsigned, Int.sub_zero, fdiv_neg_one]; omega)
+  rw [this, Int.sub_zero, fdiv_neg_one, bytesOf_1]
+  have e : (-x % ((256 ^ 1 : Nat) : Int)) = -x := Int.emod_eq_of_lt (by omega) (by omega)
+  rw [e]
+  congr 2; omega
+
+/-- a signed 16-bit big-endian field -/
+theorem i16_enc (name : String) (v : Vals) (x : Int) (hg : v.get name = .ok (.int x)) (h1 : -32768 ≤ x) (h2 : x ≤ 32767) :
+    fieldTo (.int name .always 2 .big true 0 1) v = .ok (be16s x) := by
+  have := fieldTo_int_eval name 2 .big true 0 1 v x hg (by decide)
+    (by rw [fitsInt_signed, Int.sub_zero, fdiv_one]; omega)
+  rw [this, Int.sub_zero, fdiv_one, bytesOf_2_big, be16s]
+  have : ((256 ^ 2 : Nat) : Int) = 65536 := by decide
+  rw [this]
+  congr 2; omega
+
+theorem u8_enc (name : String) (v : Vals) (x : Nat) (hg : v.get name = .ok (.int x)) (h : x < 256) :
+    fieldTo (.int name .always 1 .big false 0 1) v = .ok [x] := by
+  have := fieldTo_int_eval name 1 .big false 0 1 v x hg (by decide)
+    (by rw [fitsInt_unsigned, Int.sub_zero, fdiv_one]; omega)
+  rw [this, Int.sub_zero, fdiv_one, natcast_mod_toNat x _ (by omega), bytesOf_1]
+  congr 2; omega
+
+theorem u32_enc (name : String) (v : Vals) (x : Nat) (hg : v.get name = .ok (.int x)) (h : x < 4294967296) :
+    fieldTo (.int name .always 4 .big false 0 1) v = .ok (be32 x) := by
+  have := fieldTo_int_eval name 4 .big false 0 1 v x hg (by decide)
+    (by rw [fitsInt_unsigned, Int.sub_zero, fdiv_one]; omega)
+  rw [this, Int.sub_zero, fdiv_one, natcast_mod_toNat x _ (by omega), bytesOf_4_big]
+
 end OsmoVerif.Codec
